@@ -10,7 +10,7 @@ open C07
 namespace Dec
 
 /-- the same decoder over a buffer of capacity `c` -/
-def withCap (d : Dec) (c : Option Nat) : Dec := { d with buf := { d.buf with cap := c } }
+def withCapR (d : Dec) (c : Option Nat) : Dec := { d with buf := { d.buf with cap := c } }
 
 /-- the state right after an out-of-memory error: a fresh decoder up to the dead `crc` field -/
 def OomState (s : Dec) (c : Option Nat) : Prop :=
@@ -28,29 +28,29 @@ theorem fitsCap_zero (c : Option Nat) : fitsCap c 0 := by
 /-- Result `x` of a buffer operation on a decoder with an unbounded buffer versus result `y` of the
 same operation with capacity `c`: the same (and it fits), or `y` is out of memory. -/
 def RelO (c : Option Nat) (x y : Option Dec) : Prop :=
-  (∃ d', x = some d' ∧ d'.buf.cap = none ∧ y = some (d'.withCap c) ∧ WFc c d') ∨ y = none
+  (∃ d', x = some d' ∧ d'.buf.cap = none ∧ y = some (d'.withCapR c) ∧ WFc c d') ∨ y = none
 
 def RelP (c : Option Nat) (x y : PushRes) : Prop :=
-  (∃ d', x = .ok d' ∧ d'.buf.cap = none ∧ y = .ok (d'.withCap c) ∧ WFc c d') ∨ y = .oom
+  (∃ d', x = .ok d' ∧ d'.buf.cap = none ∧ y = .ok (d'.withCapR c) ∧ WFc c d') ∨ y = .oom
 
 theorem pushInner_rel (U : Dec) (b : UInt8) (c : Option Nat) (hU : U.buf.cap = none) :
-    RelO c (U.pushInner b) ((U.withCap c).pushInner b) := by
+    RelO c (U.pushInner b) ((U.withCapR c).pushInner b) := by
   obtain ⟨r, crc, st, z, ⟨cap, rd⟩⟩ := U
   simp only at hU
   subst hU
   have hx : (⟨r, crc, st, z, ⟨none, rd⟩⟩ : Dec).pushInner b = some ⟨r, crc, st, z, ⟨none, b :: rd⟩⟩ := by
     simp [pushInner, Buf.push, Buf.isFull]
   cases c with
-  | none => left; exact ⟨_, hx, rfl, by simp [pushInner, Buf.push, Buf.isFull, withCap], trivial⟩
+  | none => left; exact ⟨_, hx, rfl, by simp [pushInner, Buf.push, Buf.isFull, withCapR], trivial⟩
   | some N =>
     by_cases h : N ≤ rd.length
-    · right; simp [pushInner, Buf.push, Buf.isFull, withCap, h]
+    · right; simp [pushInner, Buf.push, Buf.isFull, withCapR, h]
     · left
-      refine ⟨_, hx, rfl, by simp [pushInner, Buf.push, Buf.isFull, withCap, h], ?_⟩
+      refine ⟨_, hx, rfl, by simp [pushInner, Buf.push, Buf.isFull, withCapR, h], ?_⟩
       simp [WFc]; omega
 
 theorem pushZeros_rel (k : Nat) (c : Option Nat) : ∀ (U : Dec), U.buf.cap = none → WFc c U →
-    RelO c (U.pushZeros k) ((U.withCap c).pushZeros k) := by
+    RelO c (U.pushZeros k) ((U.withCapR c).pushZeros k) := by
   induction k with
   | zero => intro U hU hw; exact Or.inl ⟨U, rfl, hU, rfl, hw⟩
   | succ k ih =>
@@ -62,8 +62,8 @@ theorem pushZeros_rel (k : Nat) (c : Option Nat) : ∀ (U : Dec), U.buf.cap = no
     · right; simp [pushZeros, h1']
 
 theorem flush_rel (c : Option Nat) (U : Dec) (hU : U.buf.cap = none) (hw : WFc c U) :
-    RelO c U.flush (U.withCap c).flush := by
-  have hz : (U.withCap c).zc = U.zc := rfl
+    RelO c U.flush (U.withCapR c).flush := by
+  have hz : (U.withCapR c).zc = U.zc := rfl
   rcases pushZeros_rel U.zc c U hU hw with ⟨d1, h1, hc1, h1', hw1⟩ | h1'
   · left
     exact ⟨{ d1 with zc := 0 }, by simp [flush, h1], hc1, by simp [flush, hz, h1']; rfl, hw1⟩
@@ -71,8 +71,8 @@ theorem flush_rel (c : Option Nat) (U : Dec) (hU : U.buf.cap = none) (hw : WFc c
     simp [flush, hz, h1']
 
 theorem pushData_rel (c : Option Nat) (U : Dec) (b : UInt8) (hU : U.buf.cap = none)
-    (hw : WFc c U) : RelP c (U.pushData b) ((U.withCap c).pushData b) := by
-  have hz : (U.withCap c).zc = U.zc := rfl
+    (hw : WFc c U) : RelP c (U.pushData b) ((U.withCapR c).pushData b) := by
+  have hz : (U.withCapR c).zc = U.zc := rfl
   by_cases hb : b = 0
   · subst hb
     by_cases h3 : U.zc ≤ 3
@@ -89,7 +89,7 @@ theorem pushData_rel (c : Option Nat) (U : Dec) (b : UInt8) (hU : U.buf.cap = no
     · right; simp [pushData, hb, h1']
 
 theorem pushRep_rel (c : Option Nat) (x : UInt8) (k : Nat) : ∀ (U : Dec), U.buf.cap = none →
-    WFc c U → RelP c (U.pushRep x k) ((U.withCap c).pushRep x k) := by
+    WFc c U → RelP c (U.pushRep x k) ((U.withCapR c).pushRep x k) := by
   induction k with
   | zero => intro U hU hw; exact Or.inl ⟨U, rfl, hU, rfl, hw⟩
   | succ k ih =>
@@ -101,7 +101,7 @@ theorem pushRep_rel (c : Option Nat) (x : UInt8) (k : Nat) : ∀ (U : Dec), U.bu
     · right; simp [pushRep, h1']
 
 theorem pushList_rel (c : Option Nat) (l : List UInt8) : ∀ (U : Dec), U.buf.cap = none →
-    WFc c U → RelP c (U.pushList l) ((U.withCap c).pushList l) := by
+    WFc c U → RelP c (U.pushList l) ((U.withCapR c).pushList l) := by
   induction l with
   | nil => intro U hU hw; exact Or.inl ⟨U, rfl, hU, rfl, hw⟩
   | cons x l ih =>
@@ -115,12 +115,12 @@ theorem pushList_rel (c : Option Nat) (l : List UInt8) : ∀ (U : Dec), U.buf.ca
 /-- unbounded outcome `x` versus bounded outcome `y` of one `push_byte`: the same (and the buffer
 contents fit), or `y` is the out-of-memory error with the decoder reset -/
 def Rel (c : Option Nat) (x y : Dec × Res) : Prop :=
-  (y = (x.1.withCap c, x.2) ∧ WFc c x.1 ∧ x.1.buf.cap = none) ∨
+  (y = (x.1.withCapR c, x.2) ∧ WFc c x.1 ∧ x.1.buf.cap = none) ∨
     (y.2 = .err .oom ∧ OomState y.1 c)
 
 theorem afterPush_rel {c : Option Nat} {U0 B0 : Dec} {rU rB : PushRes}
     {k k' : Dec → Dec × Res} (hB0 : B0.buf.cap = c) (hr : RelP c rU rB)
-    (hk : ∀ d, d.buf.cap = none → WFc c d → Rel c (k d) (k' (d.withCap c))) :
+    (hk : ∀ d, d.buf.cap = none → WFc c d → Rel c (k d) (k' (d.withCapR c))) :
     Rel c (afterPush U0 rU k) (afterPush B0 rB k') := by
   rcases hr with ⟨d1, h1, hc1, h1', hw1⟩ | h1'
   · subst h1 h1'
@@ -130,12 +130,12 @@ theorem afterPush_rel {c : Option Nat} {U0 B0 : Dec} {rU rB : PushRes}
     exact ⟨rfl, hB0 ▸ oomState_reset B0⟩
 
 
-theorem pushLook_withCap (c : Option Nat) (U : Dec) (disc init : Nat) (b : UInt8) :
-    pushLook (U.withCap c) disc init b =
-      ((pushLook U disc init b).1.withCap c, (pushLook U disc init b).2) ∧
+theorem pushLook_withCapR (c : Option Nat) (U : Dec) (disc init : Nat) (b : UInt8) :
+    pushLook (U.withCapR c) disc init b =
+      ((pushLook U disc init b).1.withCapR c, (pushLook U disc init b).2) ∧
     (pushLook U disc init b).1.buf = U.buf := by
   unfold pushLook
-  simp only [withCap]
+  simp only [withCapR]
   constructor
   · repeat' split
     all_goals simp_all
@@ -145,12 +145,12 @@ theorem pushLook_withCap (c : Option Nat) (U : Dec) (disc init : Nat) (b : UInt8
 
 theorem pushLook_rel (c : Option Nat) (U : Dec) (disc init : Nat) (b : UInt8)
     (hU : U.buf.cap = none) (hw : WFc c U) :
-    Rel c (pushLook U disc init b) (pushLook (U.withCap c) disc init b) := by
-  obtain ⟨h1, h2⟩ := pushLook_withCap c U disc init b
+    Rel c (pushLook U disc init b) (pushLook (U.withCapR c) disc init b) := by
+  obtain ⟨h1, h2⟩ := pushLook_withCapR c U disc init b
   exact Or.inl ⟨h1, by unfold WFc; rw [h2]; exact hw, by rw [h2]; exact hU⟩
 
 theorem pushEnd_rel (c : Option Nat) (U : Dec) (q : Quad) (hU : U.buf.cap = none) (hw : WFc c U) :
-    Rel c (pushEnd U q) (pushEnd (U.withCap c) q) := by
+    Rel c (pushEnd U q) (pushEnd (U.withCapR c) q) := by
   obtain ⟨r, crc, st, z, ⟨cap, rd⟩⟩ := U
   simp only at hU
   subst hU
@@ -166,16 +166,16 @@ theorem pushEnd_rel (c : Option Nat) (U : Dec) (q : Quad) (hU : U.buf.cap = none
     · next h2 =>
       rcases flush_rel c ⟨r, crcInit, st, z - q.b.toNat, ⟨none, rd⟩⟩ rfl hw with
         ⟨d1, h1, hc1, h1', hw1⟩ | h1'
-      · simp only [withCap] at h1'
+      · simp only [withCapR] at h1'
         simp only [h1, h1']
         exact Or.inl ⟨rfl, hw1, hc1⟩
-      · simp only [withCap] at h1'
+      · simp only [withCapR] at h1'
         simp only [h1']
         exact Or.inr ⟨rfl, rfl, rfl, rfl, rfl, rfl⟩
 
 
 theorem pushEscComplete_rel (c : Option Nat) (U : Dec) (q : Quad) (hU : U.buf.cap = none)
-    (hw : WFc c U) : Rel c (pushEscComplete U q) (pushEscComplete (U.withCap c) q) := by
+    (hw : WFc c U) : Rel c (pushEscComplete U q) (pushEscComplete (U.withCapR c) q) := by
   obtain ⟨r, crc, st, z, ⟨cap, rd⟩⟩ := U
   simp only at hU
   subst hU
@@ -190,7 +190,7 @@ theorem pushEscComplete_rel (c : Option Nat) (U : Dec) (q : Quad) (hU : U.buf.ca
   · split
     · split
       · exact Or.inl ⟨rfl, hw, rfl⟩
-      · exact Or.inl ⟨by simp [withCap, Buf.clear], fitsCap_zero c, rfl⟩
+      · exact Or.inl ⟨by simp [withCapR, Buf.clear], fitsCap_zero c, rfl⟩
     · split
       · exact pushEnd_rel c ⟨r, crc, st, z, ⟨none, rd⟩⟩ q rfl hw
       · split
@@ -201,7 +201,7 @@ theorem pushEscComplete_rel (c : Option Nat) (U : Dec) (q : Quad) (hU : U.buf.ca
         · exact Or.inl ⟨rfl, fitsCap_zero c, rfl⟩
 
 theorem pushByte_rel (c : Option Nat) (U : Dec) (b : UInt8) (hU : U.buf.cap = none)
-    (hw : WFc c U) : Rel c (U.pushByte b) ((U.withCap c).pushByte b) := by
+    (hw : WFc c U) : Rel c (U.pushByte b) ((U.withCapR c).pushByte b) := by
   obtain ⟨r, crc, st, z, ⟨cap, rd⟩⟩ := U
   simp only at hU
   subst hU
@@ -244,12 +244,12 @@ theorem pushByte_rel (c : Option Nat) (U : Dec) (b : UInt8) (hU : U.buf.cap = no
       · exact pushEscComplete_rel c ⟨r + 1, crc, .escPayload step q, z, ⟨none, rd⟩⟩ _ rfl hw
 
 
-theorem borrowBuf_withCap (d : Dec) (c : Option Nat) : (d.withCap c).borrowBuf = d.borrowBuf := rfl
+theorem borrowBuf_withCapR (d : Dec) (c : Option Nat) : (d.withCapR c).borrowBuf = d.borrowBuf := rfl
 
 theorem push_rel (c : Option Nat) (U : Dec) (b : UInt8) (hU : U.buf.cap = none) (hw : WFc c U) :
-    ((U.withCap c).push b = ((U.push b).1.withCap c, (U.push b).2) ∧ WFc c (U.push b).1 ∧
+    ((U.withCapR c).push b = ((U.push b).1.withCapR c, (U.push b).2) ∧ WFc c (U.push b).1 ∧
         (U.push b).1.buf.cap = none) ∨
-      (((U.withCap c).push b).2 = .err .oom ∧ OomState ((U.withCap c).push b).1 c) := by
+      (((U.withCapR c).push b).2 = .err .oom ∧ OomState ((U.withCapR c).push b).1 c) := by
   rcases pushByte_rel c U b hU hw with ⟨h1, h2, h3⟩ | ⟨h1, h2⟩
   · left
     unfold push
@@ -259,13 +259,13 @@ theorem push_rel (c : Option Nat) (U : Dec) (b : UInt8) (hU : U.buf.cap = none) 
     cases r <;> exact ⟨rfl, h2, h3⟩
   · right
     unfold push
-    generalize (U.withCap c).pushByte b = y at h1 h2 ⊢
+    generalize (U.withCapR c).pushByte b = y at h1 h2 ⊢
     obtain ⟨d1, r⟩ := y
     simp only at h1 h2
     subst h1
     exact ⟨rfl, h2⟩
 
-theorem pushAll_cons (d : Dec) (b : UInt8) (bs : List UInt8) :
+theorem pushAll_consR (d : Dec) (b : UInt8) (bs : List UInt8) :
     Dec.pushAll d (b :: bs) =
       ((Dec.pushAll (d.push b).1 bs).1, (d.push b).2 :: (Dec.pushAll (d.push b).1 bs).2) := rfl
 
@@ -277,16 +277,16 @@ theorem pushAll_take (xs : List UInt8) : ∀ (i : Nat) (d : Dec),
     intro i d
     cases i with
     | zero => simp [Dec.pushAll]
-    | succ i => simp only [List.take_succ_cons, pushAll_cons, ih]
+    | succ i => simp only [List.take_succ_cons, pushAll_consR, ih]
 
 /-- The run with capacity `c` equals the unbounded run, or its first non-`None` result is the
 out-of-memory error (after which the decoder is reset). -/
 theorem pushAll_rel (c : Option Nat) (xs : List UInt8) : ∀ (U : Dec), U.buf.cap = none → WFc c U →
-    (Dec.pushAll (U.withCap c) xs = ((Dec.pushAll U xs).1.withCap c, (Dec.pushAll U xs).2) ∧
+    (Dec.pushAll (U.withCapR c) xs = ((Dec.pushAll U xs).1.withCapR c, (Dec.pushAll U xs).2) ∧
         WFc c (Dec.pushAll U xs).1) ∨
       ∃ i, i < xs.length ∧
-        (Dec.pushAll (U.withCap c) (xs.take (i + 1))).2 = (Dec.pushAll U (xs.take i)).2 ++ [.err .oom] ∧
-        OomState (Dec.pushAll (U.withCap c) (xs.take (i + 1))).1 c := by
+        (Dec.pushAll (U.withCapR c) (xs.take (i + 1))).2 = (Dec.pushAll U (xs.take i)).2 ++ [.err .oom] ∧
+        OomState (Dec.pushAll (U.withCapR c) (xs.take (i + 1))).1 c := by
   induction xs with
   | nil => intro U _ hw; exact Or.inl ⟨rfl, hw⟩
   | cons x xs ih =>
@@ -294,13 +294,13 @@ theorem pushAll_rel (c : Option Nat) (xs : List UInt8) : ∀ (U : Dec), U.buf.ca
     rcases push_rel c U x hU hw with ⟨h1, h2, h3⟩ | ⟨h1, h2⟩
     · rcases ih (U.push x).1 h3 h2 with ⟨g1, g2⟩ | ⟨i, hi, g1, g2⟩
       · left
-        simp only [pushAll_cons, h1, g1]
+        simp only [pushAll_consR, h1, g1]
         exact ⟨trivial, g2⟩
       · right
         refine ⟨i + 1, by simp; omega, ?_, ?_⟩
-        · simp only [List.take_succ_cons, pushAll_cons, h1, g1]
+        · simp only [List.take_succ_cons, pushAll_consR, h1, g1]
           rfl
-        · simp only [List.take_succ_cons, pushAll_cons, h1]
+        · simp only [List.take_succ_cons, pushAll_consR, h1]
           exact g2
     · right
       refine ⟨0, by simp, ?_, ?_⟩
@@ -330,7 +330,7 @@ theorem frame_too_small (p : List UInt8) (N : Nat) (h : N < p.length) :
     rw [this] at g2
     exact absurd g2 (by simp; omega)
   · refine ⟨i, hi, ?_, g2⟩
-    have e : Dec.fresh (some N) = (Dec.fresh none).withCap (some N) := rfl
+    have e : Dec.fresh (some N) = (Dec.fresh none).withCapR (some N) := rfl
     rw [e, g1, Dec.pushAll_take, hrun]
     congr 1
     rw [List.take_append_of_le_length (by simp; omega)]
